@@ -4,6 +4,21 @@ import "time"
 
 // The registered harness runs per property.  Parameters are the stated bounds.
 var checks = map[string][]HarnessSpec{
+	"C07": {
+		{Name: "HarnessC07Concurrent", Pkg: "store", Quick: map[string]int{"SCENARIO": 0}, Thorough: map[string]int{"SCENARIO": 0}, Schedule: true, Race: true, Preempt: 3},
+		{Name: "HarnessC07Concurrent", Pkg: "store", Quick: map[string]int{"SCENARIO": 1}, Thorough: map[string]int{"SCENARIO": 1}, Schedule: true, Race: true, Preempt: 3},
+		{Name: "HarnessC07Concurrent", Pkg: "store", Quick: map[string]int{"SCENARIO": 2}, Thorough: map[string]int{"SCENARIO": 2}, Schedule: true, Race: true, Preempt: 3},
+		{Name: "HarnessC07Concurrent", Pkg: "store", Quick: map[string]int{"SCENARIO": 3}, Thorough: map[string]int{"SCENARIO": 3}, Schedule: true, Race: true, Preempt: 3},
+		{Name: "HarnessC07Concurrent", Pkg: "store", Quick: map[string]int{"SCENARIO": 4}, Thorough: map[string]int{"SCENARIO": 4}, Schedule: true, Race: true, Preempt: 3},
+		{Name: "HarnessC07Concurrent", Pkg: "store", Quick: map[string]int{"SCENARIO": 5}, Thorough: map[string]int{"SCENARIO": 5}, Schedule: true, Race: true, Preempt: 3},
+	},
+	"C14": {
+		{Name: "HarnessC14Relations", Pkg: "bql", Quick: map[string]int{"K": 1, "TEMPORAL": 0}, Thorough: map[string]int{"K": 2, "TEMPORAL": 0}, ThoroughWall: 90 * time.Minute},
+	},
+	"C20": {
+		{Name: "HarnessC20Faults", Pkg: "bql", Quick: map[string]int{"FAULTS": 1, "BULK": 1}, Thorough: map[string]int{"FAULTS": 2, "BULK": 1}},
+		{Name: "HarnessC20Faults", Pkg: "bql", Quick: map[string]int{"FAULTS": 1, "BULK": 2}, Thorough: map[string]int{"FAULTS": 2, "BULK": 2}},
+	},
 	"C08": {
 		{Name: "HarnessC08Hole", Pkg: "bql", Quick: map[string]int{"N": 2, "ASCII": 1}, Thorough: map[string]int{"N": 3, "ASCII": 1}},
 		{Name: "HarnessC08Tokens", Pkg: "bql", Quick: map[string]int{"L": 6}, Thorough: map[string]int{"L": 9}},
@@ -143,6 +158,9 @@ func assumptionsFor(prop string) []string {
 }
 
 var propAssumptions = map[string][]string{
+	"C07": {"two goroutines, one operation each, on one graph / one store holding concrete triples; six scenarios (batch add vs listing, add vs remove, remove vs lookup, concurrent create/drop/list of graphs, two lookups sharing one LookupOptions with LatestAnchor, two lookups with default options)", "every interleaving at synchronisation-operation granularity (go, lock/unlock, channel operations, WaitGroup) with at most 3 preemptions is explored by the engine's scheduler; sync.RWMutex is modelled with Go's writer preference", "happens-before race detection with vector clocks over interpreted loads/stores and map operations; the Go memory model (data-race-free programs are sequentially consistent) justifies the granularity", "native confirmation of a reported race: the two operations re-run 300 times under the Go race detector", "weak-memory effects, more than two goroutines and real parallel hardware are outside the claim; the planner's own concurrency is exercised only on its canonical schedule (C03, C08, C20)"},
+	"C14": {"ten one- and two-clause SELECT shapes (those of C03 without a fully specified clause) over K symbolic immutable triples; six relations: renaming, chanSize in {1,4} x bulkSize in {1,2}, repetition, clause order, partition of the data over two FROM graphs (identical triples kept together), one added triple (monotonicity)", "result tables compared fork-free as multisets of printed rows", "GOMAXPROCS and real scheduling are not modelled (canonical schedule of the engine's coroutines); ORDER BY determinism under map order is not covered yet"},
+	"C20": {"the fault schedule is a sequence of solver-controlled choices, one per driver call (Store.NewGraph/Graph/DeleteGraph/GraphNames, Graph.AddTriples/RemoveTriples/Exist and the eleven lookups): no fault, error before delivering anything, or error after the first element; at most FAULTS faults per execution", "corpus of 17 statements (every simpleFetch branch, a two-clause join, two FROM graphs, INSERT, DELETE, CONSTRUCT, DECONSTRUCT, SHOW, CREATE, DROP) against a wrapped memory store with two graphs", "the wrapper keeps the channel contract (close before return); canonical schedule of the engine's coroutines; leak check as in C08"},
 	"C08": {"stage 1 (bytes -> tokens) is C16; stage 2: ten statement templates with one hole of up to N symbolic 7-bit bytes in a token position (node, predicate, object, limit, time bound, having operand, projection, graph); stage 3: every token-type sequence up to L decided by the plain parser, rendered with sample texts; plus a corpus of 16 awkward well-formed statements; each against an empty and a three-triple store", "goroutines: the engine runs the lexer goroutine, update() writers and the planner's errgroup workers as coroutines on one canonical schedule; leak check = goroutines started and not finished once everything runnable has run", "texts outside the sample pool in stage 3, holes longer than N, and schedules other than the canonical one are outside the claim"},
 	"C04": {"one statement per run from a corpus of eleven (INSERT/DELETE into one and two graphs, CREATE, DROP, CONSTRUCT, DECONSTRUCT, CONSTRUCT with ';' reification, CONSTRUCT into a missing graph, CREATE of an existing graph) against a store with two graphs holding K symbolic immutable triples each", "graph contents are read back through Graph.Triples and compared fork-free with the expected set (pre-state plus/minus the listed or instantiated triples); the WHERE solutions are the reference of C03", "blank nodes come from the uuid.NewRandom stub (pairwise distinct values)"},
 	"C03": {"the statement is concrete (17 one- and two-clause shapes of the conjunctive fragment: constants, new and repeated bindings in every position, anchored and anchor-binding predicates, joins on one and two bindings, a product, an existence clause), the data is symbolic: K triples over the universe /u<a|b>, predicate a|b immutable or temporal at one of two anchors, object node or text", "whole pipeline executed from text: lexer, parser, semantic hooks, planner, memory driver, with its goroutines (canonical schedule; rows compared as a multiset)", "reference: brute-force assignments clause -> stored triple, compared fork-free (every row is a solution, every solution is a row, row count = number of solutions)"},
